@@ -170,3 +170,27 @@ def dfs(build, bound=2, limit=2000, budget=4000, on_result=None, prefix=()):
                 if cost <= bound:
                     stack.append(choices[:i] + [alt])
     return n, True
+
+
+def spread(build, limit=300, budget=4000, on_result=None, seed=0):
+    """Single pre-emptions spread evenly over the WHOLE default execution: the default (non-pre-emptive) run is
+    recorded, then for `limit` evenly spaced (position, other enabled thread) pairs the run is repeated with a switch
+    to that thread at that position.  Complements dfs(), whose budget is spent on the earliest positions."""
+    result, steps = run_once(build, Replay([]), budget)
+    choices = [c for (_, c) in steps]
+    cands = []
+    for i, (en, c) in enumerate(steps):
+        for alt in en:
+            if alt != c:
+                cands.append((i, alt))
+    if len(cands) > limit:
+        stride = len(cands) / float(limit)
+        off = (seed % 97) / 97.0 * stride
+        cands = [cands[min(int(off + k * stride), len(cands) - 1)] for k in range(limit)]
+    n = 0
+    for i, alt in cands:
+        result, st = run_once(build, Replay(choices[:i] + [alt]), budget)
+        n += 1
+        if on_result is not None:
+            on_result(result, [c for (_, c) in st])
+    return n
